@@ -20,6 +20,10 @@ func readIprp(b *box) (err error) {
 		if err != nil && logLevelError() {
 			logError().Object("box", inner).Err(err).Send()
 		}
+		if err != nil && inner.childFailed() {
+			inner.close()
+			break
+		}
 		if err = inner.close(); err != nil && logLevelError() {
 			logError().Object("box", inner).Err(err).Send()
 		}
